@@ -1004,6 +1004,27 @@ def fam_binary(tier):
                 buf.put(0, 6, t)
                 buf.put(off, w, v)
                 emit(sc, buf, "D")
+    # binary messages arriving as fragment groups (the realistic case: they rarely fit one sentence), on a parser
+    # that has seen abandoned groups (with / without a sequence id), deliveries and noise before
+    for gi in range(600 if thorough else 60):
+        sc.unit()
+        sc.new(0)
+        t, hdr, maxbits = ((6, 88, 920), (8, 56, 952), (17, 120, 696))[gi % 3]
+        for rep in range(2):
+            prior_history(sc, rnd, 0, ["fresh", "abandoned", "delivered", "rejected"][(gi + rep) % 4])
+            if gi % 2:
+                sc.line(nmea.line(n=3, k=1, sid=None, payload=rand_armor(rnd, 7)), 0, 1)      # id-less group, never finished
+            nb = rnd.randrange(0, maxbits // 8 + 1)
+            d = bytearray(rnd.randrange(256) for _ in range(hdr // 8 + nb))
+            d[0] = (t << 2) | (d[0] & 3)
+            pay, fill = nmea.armor(bytes(d))
+            parts = max(2, min(9, (len(pay) + 59) // 60))
+            if len(pay) < parts:
+                continue
+            cuts = split_points(rnd, len(pay), parts)
+            sid = rnd.choice([None, 1, 4, 9])
+            for k in range(1, parts + 1):
+                sc.line(nmea.line(n=parts, k=k, sid=sid, payload=pay[cuts[k - 1]:cuts[k]], fill=fill if k == parts else 0), 0, 1)
     for i in range(20000 if thorough else 300):
         if i % 500 == 0:
             sc.unit()
